@@ -258,6 +258,27 @@ Proof.
       split; [apply in_or_app; left; exact Hin | exact Hae].
 Qed.
 
+(* L7: a tile that no new upstream request covers keeps its entry *)
+Lemma loop_untouched : forall ws s acc a new,
+  s_log (final (create_loop f s acc ws)) = new ++ s_log s ->
+  (forall entry, In entry new -> ~ In a entry) ->
+  get (s_cache (final (create_loop f s acc ws))) a = get (s_cache s) a.
+Proof.
+  induction ws as [|w r IH]; intros s acc a new Hl Hnot; cbn [create_loop] in *; [reflexivity|].
+  pose proof (Hspec s w) as H. destruct (f s w) as [s1 cr|s1 e].
+  - destruct H as [[-> _] | [_ [Hlog Hcache]]].
+    + exact (IH _ _ a new Hl Hnot).
+    + destruct (loop_log r s1 (rev cr ++ acc)) as [new' [Hl' _]].
+      assert (Hn : new = new' ++ [cover w]).
+      { apply (app_inv_tail (s_log s)). rewrite <- Hl, Hl', Hlog, <- app_assoc. reflexivity. }
+      subst new. rewrite (IH s1 _ a new' Hl').
+      * destruct Hcache as [->|[_ ->]]; [reflexivity|]. rewrite get_put_all.
+        destruct (existsb (addr_eqb a) (cover w)) eqn:E; [|reflexivity].
+        exfalso. apply (Hnot (cover w)); [apply in_or_app; right; left; reflexivity | apply existsb_addr_In; exact E].
+      * intros en He. apply Hnot. apply in_or_app. left. exact He.
+  - cbn [final] in *. destruct H as [[-> _] | [_ [_ [-> _]]]]; reflexivity.
+Qed.
+
 (* L4: without a cacheable upstream answer the cache does not change *)
 Lemma loop_cache_unchanged : forall ws s acc,
   (forall k au, (length (s_log s) <= k)%nat -> sc k <> UOk true au) ->
@@ -618,6 +639,20 @@ Proof.
     + exact (loop_entry_survives Q m ev sc _ _ cover1 _ (single_spec Q m ev sc) _ s [] a e Hg).
 Qed.
 
+(* a tile that none of the upstream requests of a request covers keeps its entry *)
+Lemma request_untouched : forall s coords a new,
+  s_log (fst (load_tile_coords Q m ev sc members s coords)) = new ++ s_log s ->
+  (forall entry, In entry new -> ~ In a entry) ->
+  get (s_cache (fst (load_tile_coords Q m ev sc members s coords))) a = get (s_cache s) a.
+Proof.
+  intros s coords a new Hl Hnot. destruct (request_final s coords) as [H|[H|[u [us [H Hf]]]]].
+  - unfold load_tile_coords. rewrite H. reflexivity.
+  - unfold load_tile_coords. rewrite H. reflexivity.
+  - rewrite Hf in *. destruct (m_meta m).
+    + exact (loop_untouched Q m ev sc _ _ coverm _ (meta_spec Q m ev sc) _ s [] a new Hl Hnot).
+    + exact (loop_untouched Q m ev sc _ _ cover1 _ (single_spec Q m ev sc) _ s [] a new Hl Hnot).
+Qed.
+
 (* single-tile path, upstream down: every requested tile that exists is served with its old content *)
 Lemma single_loop_all_fail : forall ws s acc,
   (forall a, In a ws -> (exists e, get (s_cache s) a = Some e) /\ cachedb (s_cache s) a = Some false) ->
@@ -756,17 +791,6 @@ Proof.
   - split; [discriminate | intros [e [He _]]; discriminate].
 Qed.
 
-(* the seed walker hands a tile to the workers exactly when it is missing or stale (refresh_before given,
-   not --skip-uncached), resp. exactly when it is stale (--skip-uncached) *)
-Lemma seed_handles_uncached : forall c t,
-  seed_handles Q m ev c false false t = Some true <-> tm_is_cached Q m ev c t = Some false.
-Proof.
-  intros c t. unfold seed_handles. destruct (tm_is_cached Q m ev c t) as [[|]|]; cbn; split; intros H; congruence.
-Qed.
-
-Lemma seed_handles_stale : forall c t, seed_handles Q m ev c false true t = tm_is_stale Q m ev c t.
-Proof. reflexivity. Qed.
-
 End Readable.
 
 (* ---- histories --------------------------------------------------------------------------------------- *)
@@ -797,12 +821,12 @@ Lemma seed_walk_keeps : forall mains m ev s skip a en,
   exists en', get (s_cache (fst (fst (seed_walk Q m ev sc members s skip mains)))) a = Some en'.
 Proof.
   induction mains as [|t r IH]; intros m ev s skip a en Hg; cbn [seed_walk]; [exists en; exact Hg|].
-  destruct (seed_handles Q m ev (s_cache s) false skip t) as [[|]|].
-  - destruct (request_keeps m ev s [t] a en Hg) as [en1 H1].
-    destruct (IH m ev _ skip a en1 H1) as [en2 H2].
-    destruct (seed_walk Q m ev sc members (fst (load_tile_coords Q m ev sc members s [t])) skip r) as [[s2 h] ok].
-    exists en2. exact H2.
+  destruct (seed_select Q m ev (s_cache s) skip (members t)) as [[|x h]|].
   - exact (IH m ev s skip a en Hg).
+  - destruct (request_keeps m ev s (x :: h) a en Hg) as [en1 H1].
+    destruct (IH m ev _ skip a en1 H1) as [en2 H2].
+    destruct (seed_walk Q m ev sc members (fst (load_tile_coords Q m ev sc members s (x :: h))) skip r) as [[s2 hs] ok].
+    exists en2. exact H2.
   - exists en. exact Hg.
 Qed.
 
@@ -810,12 +834,12 @@ Lemma seed_walk_log : forall mains m ev s skip,
   exists new, s_log (fst (fst (seed_walk Q m ev sc members s skip mains))) = new ++ s_log s.
 Proof.
   induction mains as [|t r IH]; intros m ev s skip; cbn [seed_walk]; [exists []; reflexivity|].
-  destruct (seed_handles Q m ev (s_cache s) false skip t) as [[|]|].
-  - destruct (request_log_grows m ev s [t]) as [n1 H1].
-    destruct (IH m ev (fst (load_tile_coords Q m ev sc members s [t])) skip) as [n2 H2].
-    destruct (seed_walk Q m ev sc members (fst (load_tile_coords Q m ev sc members s [t])) skip r) as [[s2 h] ok].
-    cbn [fst] in *. exists (n2 ++ n1). rewrite H2, H1, app_assoc. reflexivity.
+  destruct (seed_select Q m ev (s_cache s) skip (members t)) as [[|x h]|].
   - exact (IH m ev s skip).
+  - destruct (request_log_grows m ev s (x :: h)) as [n1 H1].
+    destruct (IH m ev (fst (load_tile_coords Q m ev sc members s (x :: h))) skip) as [n2 H2].
+    destruct (seed_walk Q m ev sc members (fst (load_tile_coords Q m ev sc members s (x :: h))) skip r) as [[s2 hs] ok].
+    cbn [fst] in *. exists (n2 ++ n1). rewrite H2, H1, app_assoc. reflexivity.
   - exists []. reflexivity.
 Qed.
 
@@ -824,12 +848,12 @@ Lemma seed_walk_down : forall mains m ev s skip,
   s_cache (fst (fst (seed_walk Q m ev sc members s skip mains))) = s_cache s.
 Proof.
   induction mains as [|t r IH]; intros m ev s skip Hno; cbn [seed_walk]; [reflexivity|].
-  destruct (seed_handles Q m ev (s_cache s) false skip t) as [[|]|].
-  - pose proof (request_failed_keeps_cache Q m ev sc members s [t] (fun k au _ => Hno k au)) as H1.
-    pose proof (IH m ev (fst (load_tile_coords Q m ev sc members s [t])) skip Hno) as H2.
-    destruct (seed_walk Q m ev sc members (fst (load_tile_coords Q m ev sc members s [t])) skip r) as [[s2 h] ok].
-    cbn [fst] in *. congruence.
+  destruct (seed_select Q m ev (s_cache s) skip (members t)) as [[|x h]|].
   - exact (IH m ev s skip Hno).
+  - pose proof (request_failed_keeps_cache Q m ev sc members s (x :: h) (fun k au _ => Hno k au)) as H1.
+    pose proof (IH m ev (fst (load_tile_coords Q m ev sc members s (x :: h))) skip Hno) as H2.
+    destruct (seed_walk Q m ev sc members (fst (load_tile_coords Q m ev sc members s (x :: h))) skip r) as [[s2 hs] ok].
+    cbn [fst] in *. congruence.
   - reflexivity.
 Qed.
 
@@ -981,17 +1005,6 @@ Example ex_zero_age_never_fresh :
   tm_is_cached Ex.q m0 Ex.ev (put [] Ex.a0 (mkEntry 7 (store_ts Ex.q m0 Ex.ev))) Ex.a0 = Some false.
 Proof. vm_compute. reflexivity. Qed.
 
-(* seed walker with meta tiles: only the main tile of a meta tile is examined.  Here the main tile a0 is fresh
-   and the member a1 is stale (threshold 1000000008 s), the meta tile is not handed to the workers. *)
-Lemma seed_examines_main_tile_only_refuted :
-  exists Q m ev c main a,
-    In a [main; a] /\ tm_is_stale Q m ev c a = Some true /\ seed_handles Q m ev c false false main = Some false.
-Proof.
-  exists Ex.q, (mkMgr None (Some 4000000032) true false), Ex.ev,
-         [(Ex.a0, mkEntry 100 4000000036); (Ex.a1, mkEntry 101 4000000030)], Ex.a0, Ex.a1.
-  vm_compute. repeat split; try reflexivity. right. left. reflexivity.
-Qed.
-
 (* ---- the property statements (used by props/P_C13.v) ------------------------------------------------ *)
 
 Lemma stale_refetched_lemma : forall Q m ev sc members s coords a e t s' r,
@@ -1083,26 +1096,128 @@ Proof.
   rewrite Hrb, Htime, Hmt. eexists. split; [reflexivity|]. exact (relative_threshold_lags Q HQ rc (now ev) Hd).
 Qed.
 
-(* a meta tile that the seed walker hands to the workers is fetched as a whole *)
-Lemma seed_handled_refetched_lemma : forall Q m ev sc members s main s' r,
-  m_meta m = true -> In main (members main) ->
-  seed_handles Q m ev (s_cache s) false false main = Some true ->
-  load_tile_coords Q m ev sc members s [main] = (s', r) ->
-  s_log s' = members main :: s_log s.
+(* ---- seed task ------------------------------------------------------------------------------------------ *)
+
+Section SeedWalk.
+Variable Q : Z.
+Variable m : mgr.
+Variable ev : env.
+Variable sc : nat -> outcome.
+Variable members : addr -> list addr.
+
+(* what the walker is looking for: missing-or-stale tiles, with --skip-uncached stale tiles *)
+Definition wanted (skip : bool) (c : cache) (a : addr) : Prop :=
+  if skip then tm_is_stale Q m ev c a = Some true else tm_is_cached Q m ev c a = Some false.
+
+Lemma wanted_ext : forall skip c c' a, get c a = get c' a -> wanted skip c a -> wanted skip c' a.
 Proof.
-  intros Q m ev sc members s main s' r Hm Hmem Hh H.
-  apply seed_handles_uncached in Hh.
-  destruct (request_stale_refetched Q m ev sc members s [main] main s' r (or_introl eq_refl) Hmem Hh H)
-    as [new [Hl [Hne _]]].
-  destruct (request_log Q m ev sc members s [main] s' r H) as [new' [Hl' Hin]].
-  assert (new' = new) by (apply (app_inv_tail (s_log s)); congruence). subst new'.
-  (* every new entry is members main; there is exactly one because the work list has one element *)
-  unfold load_tile_coords in H. cbn [uncached] in H. rewrite Hh in H. rewrite Hm in H.
-  cbn [map dedupe mem_mt create_loop] in H.
-  pose proof (meta_spec Q m ev sc s (members main)) as Hs.
-  destruct (create_meta Q m ev sc s (members main)) as [s1 cr|s1 e]; inversion H; subst.
-  - destruct Hs as [[-> _]|[_ [Hlog _]]]; [|exact Hlog]. exfalso. apply Hne.
-    destruct new; [reflexivity|]. apply (f_equal (@length _)) in Hl. rewrite app_length in Hl. cbn in Hl. lia.
-  - destruct Hs as [[-> _]|[_ [Hlog _]]]; [|exact Hlog]. exfalso. apply Hne.
-    destruct new; [reflexivity|]. apply (f_equal (@length _)) in Hl. rewrite app_length in Hl. cbn in Hl. lia.
+  intros skip c c' a H. unfold wanted, tm_is_stale, tm_is_cached. rewrite H. auto.
 Qed.
+
+Lemma wanted_uncached : forall skip c a, wanted skip c a -> tm_is_cached Q m ev c a = Some false.
+Proof.
+  intros [|] c a H; [|exact H]. unfold wanted, tm_is_stale in H.
+  destruct (get c a); [|discriminate]. destruct (tm_is_cached Q m ev c a) as [[|]|]; try discriminate. reflexivity.
+Qed.
+
+Lemma stale_members_spec : forall c l u, stale_members Q m ev c l = Some u ->
+  forall a, In a u <-> In a l /\ tm_is_stale Q m ev c a = Some true.
+Proof.
+  induction l as [|x l IH]; intros u H a.
+  - inversion H. split; [intros [] | intros [[] _]].
+  - cbn [stale_members] in H. destruct (tm_is_stale Q m ev c x) as [b|] eqn:Hb; [|discriminate].
+    destruct (stale_members Q m ev c l) as [u'|] eqn:Hu; [|discriminate]. inversion H; subst. clear H.
+    specialize (IH u' eq_refl a). destruct b.
+    + cbn [In]. rewrite IH. split.
+      * intros [<-|[? ?]]; [split; [left; reflexivity | exact Hb] | split; [right|]; assumption].
+      * intros [[<-|Hin] Hc]; [left; reflexivity | right; split; assumption].
+    + rewrite IH. split.
+      * intros [? ?]. split; [right|]; assumption.
+      * intros [[<-|Hin] Hc]; [congruence | split; assumption].
+Qed.
+
+(* the walker hands over exactly the wanted tiles of the meta tile it examines *)
+Lemma seed_select_spec : forall skip c l h, seed_select Q m ev c skip l = Some h ->
+  forall a, In a h <-> In a l /\ wanted skip c a.
+Proof.
+  intros [|] c l h H a; unfold seed_select in H; unfold wanted.
+  - exact (stale_members_spec c l h H a).
+  - exact (uncached_spec Q m ev c l h H a).
+Qed.
+
+Definition covered (new : list (list addr)) (a : addr) : bool := existsb (fun en => existsb (addr_eqb a) en) new.
+
+Lemma covered_true : forall new a, covered new a = true -> exists entry, In entry new /\ In a entry.
+Proof.
+  intros new a H. apply existsb_exists in H. destruct H as [en [H1 H2]]. exists en. split; [exact H1|].
+  apply existsb_addr_In. exact H2.
+Qed.
+
+Lemma covered_false : forall new a, covered new a = false -> forall entry, In entry new -> ~ In a entry.
+Proof.
+  intros new a H en He Ha. assert (covered new a = true); [|congruence].
+  apply existsb_exists. exists en. split; [exact He | apply existsb_addr_In; exact Ha].
+Qed.
+
+(* the whole walk: a wanted tile of an examined meta tile is handed to a worker, unless an earlier upstream
+   request of the same walk already covered it *)
+Lemma seed_walk_hands_over : forall skip mains s a t,
+  In t mains -> In a (members t) -> wanted skip (s_cache s) a ->
+  forall s' handed, seed_walk Q m ev sc members s skip mains = (s', handed, true) ->
+  (exists h, In h handed /\ In a h) \/
+  (exists new entry, s_log s' = new ++ s_log s /\ In entry new /\ In a entry).
+Proof.
+  intros skip. induction mains as [|t0 r IH]; intros s a t Ht Ha Hw s' handed H; [destruct Ht|].
+  cbn [seed_walk] in H.
+  destruct (seed_select Q m ev (s_cache s) skip (members t0)) as [h|] eqn:Hsel; [|discriminate].
+  destruct (existsb (addr_eqb a) (members t0)) eqn:Hin.
+  - (* a belongs to the meta tile examined now: it is selected *)
+    apply existsb_addr_In in Hin.
+    assert (Hah : In a h) by (apply (seed_select_spec _ _ _ _ Hsel); split; assumption).
+    destruct h as [|x h]; [destruct Hah|].
+    destruct (seed_walk Q m ev sc members (fst (load_tile_coords Q m ev sc members s (x :: h))) skip r) as [[s2 hs] ok].
+    inversion H; subst. left. exists (x :: h). split; [left; reflexivity | exact Hah].
+  - assert (Ht' : In t r).
+    { destruct Ht as [<-|Ht]; [|exact Ht]. apply existsb_addr_In in Ha. congruence. }
+    destruct h as [|x h]; [exact (IH s a t Ht' Ha Hw s' handed H)|].
+    set (s1 := fst (load_tile_coords Q m ev sc members s (x :: h))) in *.
+    destruct (load_tile_coords Q m ev sc members s (x :: h)) as [s1' r1] eqn:Hreq.
+    destruct (request_log Q m ev sc members _ _ _ _ Hreq) as [new1 [Hl1 _]]. cbn [fst] in s1. subst s1.
+    destruct (seed_walk Q m ev sc members s1' skip r) as [[s2 hs] ok] eqn:Hwalk. inversion H; subst.
+    destruct (seed_walk_log Q sc members r m ev s1' skip) as [new2 Hl2]. rewrite Hwalk in Hl2. cbn [fst] in Hl2.
+    destruct (covered new1 a) eqn:Hcov.
+    + destruct (covered_true _ _ Hcov) as [en [He Hae]]. right. exists (new2 ++ new1), en.
+      rewrite Hl2, Hl1, app_assoc. split; [reflexivity|]. split; [apply in_or_app; right; exact He | exact Hae].
+    + assert (Hg : get (s_cache s1') a = get (s_cache s) a).
+      { pose proof (request_untouched Q m ev sc members s (x :: h) a new1) as Hu. rewrite Hreq in Hu. cbn [fst] in Hu.
+        exact (Hu Hl1 (covered_false _ _ Hcov)). }
+      assert (Hw' : wanted skip (s_cache s1') a) by (apply (wanted_ext skip (s_cache s)); [symmetry; exact Hg | exact Hw]).
+      destruct (IH s1' a t Ht' Ha Hw' s' hs Hwalk) as [[h' [Hh' Hah']]|[new [en [Hl [He Hae]]]]].
+      * left. exists h'. split; [right; exact Hh' | exact Hah'].
+      * right. exists (new ++ new1), en. rewrite Hl, Hl1, app_assoc. split; [reflexivity|].
+        split; [apply in_or_app; left; exact He | exact Hae].
+Qed.
+
+(* and the worker's request for a handed-over list fetches every tile of it *)
+Lemma seed_handed_refetched : forall skip s t h a s' r,
+  seed_select Q m ev (s_cache s) skip (members t) = Some h -> In a h -> In a (members a) ->
+  load_tile_coords Q m ev sc members s h = (s', r) ->
+  exists new, s_log s' = new ++ s_log s /\ new <> [] /\
+    (r = Raised ESource \/ exists l entry, r = Served l /\ In entry new /\ In a entry).
+Proof.
+  intros skip s t h a s' r Hsel Hah Hmem H.
+  apply (request_stale_refetched Q m ev sc members s h a s' r Hah Hmem); [|exact H].
+  apply (wanted_uncached skip). exact (proj2 (proj1 (seed_select_spec _ _ _ _ Hsel a) Hah)).
+Qed.
+
+End SeedWalk.
+
+(* non-vacuity: the state of the former finding (main tile a0 fresh, member a1 stale, threshold 1000000008 s):
+   the repaired walker hands over [a1] and the meta tile is fetched again *)
+Example ex_seed_walk_mixed_meta_tile :
+  let m := mkMgr None (Some 4000000032) true false in
+  let c := [(Ex.a0, mkEntry 100 4000000036); (Ex.a1, mkEntry 101 4000000030);
+            (Ex.a2, mkEntry 102 4000000036); (Ex.a3, mkEntry 103 4000000036)] in
+  seed_walk Ex.q m Ex.ev Ex.all_ok Ex.block (mkSt c []) false [Ex.a0] =
+  (mkSt (put_all c [Ex.a2; Ex.a3; Ex.a0; Ex.a1] (mkEntry 0 4000000040)) [[Ex.a2; Ex.a3; Ex.a0; Ex.a1]], [[Ex.a1]], true).
+Proof. vm_compute. reflexivity. Qed.
